@@ -230,6 +230,7 @@ def judge(case, rec):
     pop = case["population"]
     R = lib.cube(resp, case["base"], population=pop).partitions[0]
     T = lib.cube(resp, case["full"], population=pop).partitions[0]
+    lib.warm(T, case.get("warmup"))
     dims = apparent_dims(sv, q)
     strand = len(dims) == 1
     orc = Oracle(sv, q)
